@@ -173,6 +173,11 @@ func c13Run(c *Ctx) {
 					map[string]any{"kind": "hashname", "name": name, "other": other, "replacement": pre}, nil)
 			}
 			byPseud[res[i]] = name
+			if form.MatchString(res[i]) {
+				c.Outcome("well-formed pseudonym")
+			} else {
+				c.Outcome("malformed pseudonym")
+			}
 		}
 		// names shaped like (parts of) the tool's own output under this and other replacement texts: a whole
 		// pseudonym, its digits alone, the digits behind another prefix, near misses, a pseudonym of a pseudonym
